@@ -51,6 +51,16 @@ CHECKS.update({
             "DESIGN.md section 4, C07"),
 })
 
+CHECKS.update({
+    "C04": ("Hypothesis-generated trees per vendor; round-trip oracle tree -> vendor text -> tree and text fixed point",
+            "For all 14 registered vendors, generated well-formed trees (depth<=5) must survive join -> parse with rows, nesting and order "
+            "intact, re-rendering must be a fixed point, and `annet gen`'s format_config_blocks output must parse back. Round-trip oracle "
+            "over generated inputs (exploration).",
+            "Trusted: nothing beyond tree equality; domain restrictions per vendor are listed in the evidence assumptions (cisco "
+            "address-family blocks end with exit-address-family).",
+            "DESIGN.md section 4, C04"),
+})
+
 NOT_YET = {}
 
 
